@@ -71,12 +71,14 @@ def lifeOK (s : State) : Bool :=
 
 /-- Marks of a record are coherent with its node and command. -/
 def trackOK (s : State) (t : Track) : Bool :=
-  -- the last snapshot is the node's current flag
-  (match t.marks.getLast? with | some p => p.2 == t.free | none => true) &&
+  -- the last snapshot is the node's current flag (a concluded invocation takes no further states)
+  (t.concluded || match t.marks.getLast? with | some p => p.2 == t.free | none => true) &&
   (!t.hasMark .cancelled || !t.free) && (!t.hasMark .forced || t.nForced) &&
   (t.hasMark .cmdSet == t.cmd.isSome) &&
   -- (Failed without a start: the request's arguments were rejected)
-  (!(t.hasMark .started || t.hasMark .completed) || t.hasMark .cmdSet) &&
+  -- (Completed without a start: the request ran an instance created by an earlier, rejected request, whose
+  --  record took the Started state — or refused it)
+  (!t.hasMark .started || t.hasMark .cmdSet) &&
   (match t.cmd with
    | none => true
    | some ser =>
